@@ -185,10 +185,12 @@ pub fn cover<S: Src, const N: usize>(s: &mut S) {
     let mut last: Option<P> = None;
     let mut first: Option<P> = None;
     let mut seen_z = 0usize;
+    let mut ended = false;
     let mut k = 0;
     while k < N {
         match it.next() {
             Some((p, v)) => {
+                check!(s, !ended, "C09:no item after cover returned None (no premature None, fused)");
                 steps += 1;
                 check!(s, covers(p, &q), "C09:cover item covers the query");
                 let at = lookup(&nodes, &r, p);
@@ -204,7 +206,7 @@ pub fn cover<S: Src, const N: usize>(s: &mut S) {
                     seen_z += 1;
                 }
             }
-            None => {}
+            None => ended = true,
         }
         k += 1;
     }
@@ -268,9 +270,15 @@ pub fn set_obs<S: Src, const N: usize>(s: &mut S) {
     let mut it = set.cover(&q);
     let mut steps = 0;
     let mut last: Option<P> = None;
+    let mut ended = false;
     let mut k = 0;
     while k <= N {
-        if let Some(p) = it.next() {
+        let x = it.next();
+        if x.is_none() {
+            ended = true;
+        }
+        if let Some(p) = x {
+            check!(s, !ended, "C09:no item after set cover returned None");
             steps += 1;
             check!(s, covers(p, &q) && lookup(&nodes, &r, p).is_some(), "C09:set cover item is a covering entry");
             if let Some(lp) = last {
@@ -308,9 +316,15 @@ pub fn cover_chain<S: Src>(s: &mut S) {
     let mut it = map.cover(&q);
     let mut steps = 0usize;
     let mut last: Option<P> = None;
+    let mut ended = false;
     let mut k = 0;
     while k < N {
-        if let Some((p, _)) = it.next() {
+        let x = it.next();
+        if x.is_none() {
+            ended = true;
+        }
+        if let Some((p, _)) = x {
+            check!(s, !ended, "C09:no item after cover returned None (no premature None, fused)");
             steps += 1;
             check!(s, covers(p, &q) && lookup(&nodes, &r, p).is_some(), "C09:cover item is a stored entry covering the query");
             if let Some(lp) = last {
